@@ -794,7 +794,7 @@ pub fn check_main(e: &dyn Engine, tier: Tier, seed: u64, workers: usize, runs_ov
             "probes_at_zero": zero_probes,
             "runs_per_hour": if wall > 0.0 { (evaluations as f64 / wall * 3600.0) as u64 } else { 0 },
             "events_per_hour": if wall > 0.0 { (events as f64 / wall * 3600.0) as u64 } else { 0 },
-            "simulated_time": "n/a - the system under test has no clock, timer or deadline; logical steps (events) are reported instead",
+            "simulated_time": format!("{} ms of simulated time advanced through the clock seam (the `instant` crate, the repo's time source, is replaced by the simulator's clock; the pinned code never reads it) - logical steps (events) are the primary measure", stats.get("sim-time-ms").copied().unwrap_or(0)),
             "components": e.components(),
             "known_findings_seen": known_seen.iter().map(|(k, (n, _))| json!({"key": k, "count": n})).collect::<Vec<_>>(),
             "notes": notes,
